@@ -2,10 +2,12 @@ package main
 
 import (
 	"fmt"
+	"github.com/bluenviron/gomavlib/v3"
 	"math/rand"
 	"reflect"
 	"strings"
 	"sync"
+	"verifharness/scn"
 
 	"github.com/bluenviron/gomavlib/v3/pkg/dialect"
 	"github.com/bluenviron/gomavlib/v3/pkg/message"
@@ -18,6 +20,8 @@ func init() { gens["C17"] = genC17 }
 func genC17(o *hx.Out, tier string) {
 	r := hx.NewRand(17)
 	c17Concurrent(o, tier)
+	c17Sequences(o)
+	c17NodeDialectChanged(o)
 	for _, nd := range hx.Shipped() {
 		drw := defineDialect(o, nd.Name, nd.D)
 		ids := map[uint32]bool{}
@@ -151,4 +155,62 @@ func c17Concurrent(o *hx.Out, tier string) {
 		verdict = fmt.Sprintf("WRONG-CODEC-RETURNED %d of %d concurrent lookups", total, workers*rounds)
 	}
 	o.Add("concurrent lookups", verdict, "expect", "ok", "concurrent lookups")
+}
+
+// c17Sequences: what a lookup returns does not depend on the lookups before it: a present id, then an
+// absent id twice, then the present id again, for every message of the common dialect.
+func c17Sequences(o *hx.Out) {
+	d := shipped("common")
+	drw := &dialect.ReadWriter{Dialect: d}
+	if drw.Initialize() != nil {
+		return
+	}
+	bad := 0
+	first := ""
+	for _, m := range d.Messages {
+		id := m.GetID()
+		for _, absent := range []uint32{id + 100000, 99999, 1<<24 - 1} {
+			a := drw.GetMessage(id)
+			b := drw.GetMessage(absent)
+			c := drw.GetMessage(absent)
+			e := drw.GetMessage(id)
+			if a == nil || e != a || b != nil || c != nil || a.Message.GetID() != id {
+				bad++
+				if first == "" {
+					first = fmt.Sprintf("id %d then absent %d twice: %v %v %v %v", id, absent, a != nil, b != nil, c != nil, e == a)
+				}
+			}
+		}
+	}
+	verdict := "ok"
+	if bad != 0 {
+		verdict = fmt.Sprintf("LOOKUP-DEPENDS-ON-EARLIER-LOOKUPS %d sequences, first: %s", bad, first)
+	}
+	o.Add("lookup sequences", verdict, "expect", "ok", "lookup sequences")
+}
+
+// c17NodeDialectChanged: a dialect is examined every time a node is created with it: after a first
+// node, the application adds a duplicate id (or a malformed struct) to the same dialect value; the
+// second node is refused.
+func c17NodeDialectChanged(o *hx.Out) {
+	mk := func(d *dialect.Dialect) string {
+		n, err := gomavlib.NewNode(gomavlib.NodeConf{Endpoints: []gomavlib.EndpointConf{gomavlib.EndpointCustom{ReadWriteCloser: scn.NewPipe("c17")}},
+			Dialect: d, OutVersion: gomavlib.V2, OutSystemID: 10, HeartbeatDisable: true})
+		if err != nil {
+			return "refused"
+		}
+		go func() {
+			for range n.Events() {
+			}
+		}()
+		n.Close()
+		return "accepted"
+	}
+	for _, extra := range []message.Message{&MessageUserARedefined{}, &MessageUserBadType{}} {
+		d := &dialect.Dialect{Version: 3, Messages: []message.Message{&MessageUserA{}, &MessageUserB{}}}
+		r1 := mk(d)
+		d.Messages = append(d.Messages, extra) // a second message with id 50001 / a malformed struct
+		r2 := mk(d)
+		o.Add("dialect changed between two nodes", r1+" "+r2, "expect", "accepted refused", "node dialect changed: "+reflect.TypeOf(extra).Elem().Name())
+	}
 }
